@@ -38,7 +38,7 @@ Proof. exact ex_heap. Qed.
 
 (* single operations on any heap satisfying the invariant (what the loop layer uses) *)
 Theorem C09_heap_add : forall h t, hinv h -> (forall u, mem (ents h) u -> t_id u <> t_id t) ->
-  exists h', heap_add h t = Some h' /\ hinv h' /\ length (ents h') = S (length (ents h)) /\
+  exists h', heap_add h t = Some h' /\ hinv h' /\ length (ents h') = Datatypes.S (length (ents h)) /\
              (forall u, mem (ents h') u <-> (mem (ents h) u \/ u = t)).
 Proof. exact heap_add_ok. Qed.
 Print Assumptions C09_heap_add.
@@ -201,7 +201,7 @@ Proof. exact (conj (proj1 timeout_fixed_witness) (conj (proj2 timeout_fixed_witn
    every heap entry belongs to exactly one ACTIVE slot that points back to it and vice versa, every timer item on
    a job list is a JOBLIST slot of that priority and is listed once. *)
 Theorem C09_consistent_all_histories : forall beh ops hz0 clk0 cstep0,
-  wf2_beh beh -> Forall wf2_op ops -> S (run fixed beh (lp_init hz0 clk0 cstep0) ops).
+  wf2_beh beh -> Forall wf2_op ops -> LoopTimerStrong.S (run fixed beh (lp_init hz0 clk0 cstep0) ops).
 Proof. exact consistent_all_histories. Qed.
 Print Assumptions C09_consistent_all_histories.
 
